@@ -40,6 +40,9 @@ def run(ctx):
                        "upstream FRUIT programs are an additional fixed replay tier, not generated input"]
     configs = [None, {"F_CFI": True}, {"debug": True}] if quick else [None, {"F_CFI": True}, {"debug": True}, {"F_CFI": True, "debug": True}]
     callcheck.run_engine(ctx, "fortran", configs, 16 if quick else 400, ["c++", "c"])
+    # focused families: overload / default-argument dispatch; classes
+    callcheck.run_engine(ctx, "fortran", [None, {"F_CFI": True}], 12 if quick else 200, ["c++"], with_overloads=True, nfunc=(1, 2), with_class=False)
+    callcheck.run_engine(ctx, "fortran", [None], 10 if quick else 150, ["c++"], with_class=True, with_overloads=False, nfunc=(0, 2))
     names = upstream.target_lists()["fortran"]
     jobs = [(n, None) for n in names]
     if not quick:
